@@ -17,9 +17,9 @@ Definition Inv (c : cfg) (s : st) : Prop :=
   | Waiting g _ _ v => winv c g v (owner s)
   end.
 
-Lemma finish_inv c k0 g v ow : winv c g v ow -> Inv c (finish c k0 v ow).
+Lemma finish_inv c k0 g v ow h : winv c g v ow -> Inv c (finish c k0 v ow h).
 Proof.
-  unfold Inv, finish, winv; cbn. destruct v as [tg|]; [destruct tg|]; auto.
+  unfold Inv, finish, end_of_line, winv; cbn. destruct v as [tg|]; [destruct tg|]; auto.
 Qed.
 
 Lemma settle_inv c fuel : forall s, Inv c s -> Inv c (settle c fuel s).
@@ -35,14 +35,14 @@ Proof.
   - destruct (all_gone (procs (k s))); [eapply finish_inv; eauto | exact H].
 Qed.
 
-Lemma enter_wait_inv c k0 g pids v ow : winv c g v ow -> Inv c (enter_wait c k0 g pids v ow).
+Lemma enter_wait_inv c k0 g pids v ow h : winv c g v ow -> Inv c (enter_wait c k0 g pids v ow h).
 Proof.
   intro W. unfold enter_wait. destruct pids.
   - eapply finish_inv; eauto.
   - apply settle_inv. unfold Inv; cbn. exact W.
 Qed.
 
-Lemma end_of_line_inv c k0 ow : ow = c_sh c -> Inv c (end_of_line k0 ow).
+Lemma end_of_line_inv c k0 ow h : ow = c_sh c -> Inv c (end_of_line k0 ow h).
 Proof. intro; unfold Inv, end_of_line; cbn; auto. Qed.
 
 Lemma launch_inv c s pids bg :
@@ -59,7 +59,7 @@ Qed.
 Lemma do_fg_inv c s arg pick : md s = AtPrompt -> Inv c s -> Inv c (do_fg c s arg pick).
 Proof.
   intros M H. assert (O : owner s = c_sh c) by (unfold Inv in H; rewrite M in H; exact H).
-  unfold do_fg. destruct (tab (k s)); [apply end_of_line_inv; auto|].
+  unfold do_fg. destruct (ctab (quiet (k s))); [apply end_of_line_inv; auto|].
   destruct (find_job _ arg pick) as [j0|]; [|apply end_of_line_inv; auto].
   match goal with |- context [if ?b then _ else _] => destruct b end.
   - apply enter_wait_inv. reflexivity.
@@ -69,7 +69,7 @@ Qed.
 Lemma do_bg_inv c s arg pick : md s = AtPrompt -> Inv c s -> Inv c (do_bg s arg pick).
 Proof.
   intros M H. assert (O : owner s = c_sh c) by (unfold Inv in H; rewrite M in H; exact H).
-  unfold do_bg. destruct (tab (k s)); [apply end_of_line_inv; auto|].
+  unfold do_bg. destruct (ctab (quiet (k s))); [apply end_of_line_inv; auto|].
   destruct (find_job _ arg pick) as [j0|]; [|apply end_of_line_inv; auto].
   destruct (jst j0); apply end_of_line_inv; auto.
 Qed.
@@ -77,7 +77,7 @@ Qed.
 Lemma do_jobs_inv c s : md s = AtPrompt -> Inv c s -> Inv c (do_jobs s).
 Proof.
   intros M H. assert (O : owner s = c_sh c) by (unfold Inv in H; rewrite M in H; exact H).
-  unfold do_jobs; cbn. destruct (tab (k s)); apply end_of_line_inv; auto.
+  unfold do_jobs. destruct (ctab (quiet (k s))); apply end_of_line_inv; auto.
 Qed.
 
 Lemma clear_inv c s : Inv c s -> Inv c (clear s).
@@ -136,8 +136,8 @@ Definition tty (c : cfg) : bool := c_hasterm c && c_isatty c.
 Definition Given (s : st) : Prop :=
   match md s with Waiting _ _ _ (VLaunch tg) => tg = true | _ => True end.
 
-Lemma finish_given c k0 v ow : Given (finish c k0 v ow).
-Proof. unfold Given, finish; cbn; auto. Qed.
+Lemma finish_given c k0 v ow h : Given (finish c k0 v ow h).
+Proof. unfold Given, finish, end_of_line; cbn; auto. Qed.
 
 Lemma settle_given c fuel : forall s, Given s -> Given (settle c fuel s).
 Proof.
@@ -151,14 +151,14 @@ Proof.
   - destruct (all_gone (procs (k s))); [apply finish_given | unfold Given; rewrite M; unfold Given in H; rewrite M in H; exact H].
 Qed.
 
-Lemma enter_wait_given c k0 g pids v ow :
-  match v with VLaunch tg => tg = true | VFg => True end -> Given (enter_wait c k0 g pids v ow).
+Lemma enter_wait_given c k0 g pids v ow h :
+  match v with VLaunch tg => tg = true | VFg => True end -> Given (enter_wait c k0 g pids v ow h).
 Proof.
   intro W. unfold enter_wait. destruct pids; [apply finish_given|].
   apply settle_given. unfold Given; cbn. exact W.
 Qed.
 
-Lemma eol_given k0 ow : Given (end_of_line k0 ow).
+Lemma eol_given k0 ow h : Given (end_of_line k0 ow h).
 Proof. unfold Given, end_of_line; cbn; auto. Qed.
 
 Lemma group_exists_launch p0 rest ps : group_exists p0 (ps ++ stages p0 (p0 :: rest)) = true.
@@ -177,13 +177,13 @@ Proof.
   - unfold launch. destruct pids as [|p0 rest]; [unfold Given; rewrite M; auto|].
     destruct bg; [apply eol_given|]. apply enter_wait_given.
     unfold tty in T. rewrite T, group_exists_launch. reflexivity.
-  - unfold do_fg. destruct (tab (k s)); [apply eol_given|].
+  - unfold do_fg. destruct (ctab (quiet (k s))); [apply eol_given|].
     destruct (find_job _ arg pick); [|apply eol_given].
     match goal with |- context [if ?b then _ else _] => destruct b end;
       [apply enter_wait_given; auto | apply eol_given].
-  - unfold do_bg. destruct (tab (k s)); [apply eol_given|].
+  - unfold do_bg. destruct (ctab (quiet (k s))); [apply eol_given|].
     destruct (find_job _ arg pick) as [j0|]; [|apply eol_given]. destruct (jst j0); apply eol_given.
-  - unfold do_jobs; cbn. destruct (tab (k s)); apply eol_given.
+  - unfold do_jobs. destruct (ctab (quiet (k s))); apply eol_given.
 Qed.
 
 Lemma fold_given c acts : tty c = true ->
@@ -210,8 +210,8 @@ Definition wgid (m : mode) : option Z :=
 
 Definition NotW (g : Z) (s : st) : Prop := wgid (md s) <> Some g.
 
-Lemma finish_notw c g k0 v ow : NotW g (finish c k0 v ow).
-Proof. unfold NotW, finish; cbn; discriminate. Qed.
+Lemma finish_notw c g k0 v ow h : NotW g (finish c k0 v ow h).
+Proof. unfold NotW, finish, end_of_line; cbn; discriminate. Qed.
 
 Lemma settle_notw c g fuel : forall s, NotW g s -> NotW g (settle c fuel s).
 Proof.
@@ -225,13 +225,13 @@ Proof.
   - destruct (all_gone (procs (k s))); [apply finish_notw | exact H].
 Qed.
 
-Lemma enter_wait_notw c g k0 g0 pids v ow : g0 <> g -> NotW g (enter_wait c k0 g0 pids v ow).
+Lemma enter_wait_notw c g k0 g0 pids v ow h : g0 <> g -> NotW g (enter_wait c k0 g0 pids v ow h).
 Proof.
   intro N. unfold enter_wait. destruct pids; [apply finish_notw|].
   apply settle_notw. unfold NotW; cbn. congruence.
 Qed.
 
-Lemma eol_notw g k0 ow : NotW g (end_of_line k0 ow).
+Lemma eol_notw g k0 ow h : NotW g (end_of_line k0 ow h).
 Proof. unfold NotW, end_of_line; cbn; discriminate. Qed.
 
 (** actions that could put group [g] in the foreground: fg, or a launch led by [g] *)
@@ -253,9 +253,9 @@ Proof.
   - unfold launch. destruct pids as [|p0 rest]; [exact H|].
     destruct bg; [apply eol_notw|]. apply enter_wait_notw.
     cbn in A. apply Z.eqb_neq in A. exact A.
-  - unfold do_bg. destruct (tab (k s)); [apply eol_notw|].
+  - unfold do_bg. destruct (ctab (quiet (k s))); [apply eol_notw|].
     destruct (find_job _ arg pick) as [j0|]; [|apply eol_notw]. destruct (jst j0); apply eol_notw.
-  - unfold do_jobs; cbn. destruct (tab (k s)); apply eol_notw.
+  - unfold do_jobs. destruct (ctab (quiet (k s))); apply eol_notw.
 Qed.
 
 Lemma fold_notw c g acts : forallb (fun a => negb (may_fg g a)) acts = true ->
@@ -333,55 +333,26 @@ Proof.
   - auto.
 Qed.
 
-Lemma job_done_procs k0 g p r : procs (job_done k0 g p r) = procs k0.
-Proof. unfold job_done. destruct (remove_pid (tab k0) g p) as [t [j|]]; reflexivity. Qed.
-
-Lemma member_continued_procs k0 p g : procs (member_continued k0 p g) = procs k0.
-Proof. unfold member_continued. destruct (sh_member_continued (tab k0) p g) as [t [j|]]; reflexivity. Qed.
-
-Lemma member_stopped_procs k0 p g r : procs (member_stopped k0 p g r) = procs k0.
-Proof.
-  unfold member_stopped. destruct (sh_mark_job_member_stopped (tab k0) p g) as [t [j|]]; auto.
-  destruct (all_members_stopped j); reflexivity.
-Qed.
-
 Lemma wait_body_procs k0 g pids w e : procs (fst (wait_body k0 g pids w e)) = procs k0.
-Proof.
-  unfold wait_body; cbn [fst]. destruct e; destruct (memZ _ pids);
-    rewrite ?job_done_procs, ?member_stopped_procs; reflexivity.
-Qed.
+Proof. unfold wait_body. destruct (wait_one (shl k0) g pids w e). reflexivity. Qed.
 
-Lemma drain_pg fuel : forall k0, map pg (procs (drain fuel k0)) = map pg (procs k0).
+Lemma drain_pg fuel : forall ps, map pg (snd (drain fuel ps)) = map pg ps.
 Proof.
-  induction fuel as [|f IH]; intro k0; cbn [drain]; auto.
-  destruct (next_status (procs k0)) as [[e ps]|] eqn:N; auto.
-  rewrite IH. cbn. eapply next_status_pg; eauto.
+  induction fuel as [|f IH]; intro ps; cbn [drain]; auto.
+  destruct (next_status ps) as [[e ps']|] eqn:N; auto.
+  specialize (IH ps'). destruct (drain f ps') as [q ps'']. cbn in *. rewrite IH.
+  eapply next_status_pg; eauto.
 Qed.
-
-Lemma poll_pid_procs r g k0 p : procs (poll_pid r g k0 p) = procs k0.
-Proof.
-  unfold poll_pid. destruct (map_get p (m_reap (mps k0))); [rewrite job_done_procs; reflexivity|].
-  destruct (map_get p (m_kill (mps k0))); [rewrite job_done_procs; reflexivity|].
-  destruct (memZ p (m_stop (mps k0))); [rewrite member_stopped_procs; reflexivity|].
-  destruct (memZ p (m_cont (mps k0))); [rewrite member_continued_procs|]; reflexivity.
-Qed.
-
-Lemma poll_job_procs r j : forall k0, procs (poll_job r k0 j) = procs k0.
-Proof.
-  unfold poll_job. induction (jpids j) as [|p l IH]; intro k0; cbn; auto.
-  rewrite IH. apply poll_pid_procs.
-Qed.
-
-Lemma fold_poll_job_procs r t : forall k0, procs (fold_left (poll_job r) t k0) = procs k0.
-Proof. induction t as [|j l IH]; intro k0; cbn; auto. rewrite IH. apply poll_job_procs. Qed.
 
 Lemma poll_pg r k0 : map pg (procs (poll r k0)) = map pg (procs k0).
 Proof.
-  unfold poll. destruct (tab k0); auto. rewrite fold_poll_job_procs. apply drain_pg.
+  unfold poll, poll_evs. destruct (ctab k0); [reflexivity|].
+  pose proof (drain_pg (S (length (procs k0))) (procs k0)) as D.
+  destruct (drain (S (length (procs k0))) (procs k0)) as [q ps]. exact D.
 Qed.
 
-Lemma finish_groups c k0 v ow : groups (finish c k0 v ow) = map pg (procs k0).
-Proof. unfold groups, finish; cbn. apply poll_pg. Qed.
+Lemma finish_groups c k0 v ow h : groups (finish c k0 v ow h) = map pg (procs k0).
+Proof. unfold groups, finish, end_of_line; cbn. apply poll_pg. Qed.
 
 Lemma settle_groups c fuel : forall s, groups (settle c fuel s) = groups s.
 Proof.
@@ -398,13 +369,13 @@ Proof.
   - destruct (all_gone (procs (k s))); auto. apply finish_groups.
 Qed.
 
-Lemma enter_wait_groups c k0 g pids v ow : groups (enter_wait c k0 g pids v ow) = map pg (procs k0).
+Lemma enter_wait_groups c k0 g pids v ow h : groups (enter_wait c k0 g pids v ow h) = map pg (procs k0).
 Proof.
   unfold enter_wait. destruct pids; [apply finish_groups|].
   unfold settle_all. rewrite settle_groups. reflexivity.
 Qed.
 
-Lemma eol_groups k0 ow : groups (end_of_line k0 ow) = map pg (procs k0).
+Lemma eol_groups k0 ow h : groups (end_of_line k0 ow h) = map pg (procs k0).
 Proof. unfold groups, end_of_line; cbn. apply poll_pg. Qed.
 
 (** the groups a launch creates: every stage in the group of stage 0 *)
@@ -431,16 +402,16 @@ Proof.
   - unfold launch, new_groups. destruct pids as [|p0 rest]; [rewrite app_nil_r; reflexivity|].
     destruct bg; [rewrite eol_groups | rewrite enter_wait_groups]; cbn [procs];
       rewrite map_app; unfold stages; rewrite map_map; reflexivity.
-  - unfold do_fg. destruct (tab (k s)); [rewrite eol_groups; reflexivity|].
+  - unfold do_fg. destruct (ctab (quiet (k s))); [rewrite eol_groups; reflexivity|].
     destruct (find_job _ arg pick) as [j0|]; [|rewrite eol_groups; reflexivity].
     match goal with |- context [if ?b then _ else _] => destruct b end.
     + rewrite enter_wait_groups. cbn [procs]. apply on_group_pg, deliver_pg.
     + rewrite eol_groups. reflexivity.
-  - unfold do_bg. destruct (tab (k s)); [rewrite eol_groups; reflexivity|].
+  - unfold do_bg. destruct (ctab (quiet (k s))); [rewrite eol_groups; reflexivity|].
     destruct (find_job _ arg pick) as [j0|]; [|rewrite eol_groups; reflexivity].
     destruct (jst j0); rewrite eol_groups; cbn [procs]; apply on_group_pg, deliver_pg.
-  - unfold do_jobs; cbn [tab procs mps]. destruct (tab (k s)); rewrite eol_groups; cbn [procs say]; auto.
-    unfold say; cbn [procs]. apply poll_pg.
+  - unfold do_jobs. destruct (ctab (quiet (k s))); rewrite eol_groups; cbn [procs say quiet]; auto.
+    unfold say; cbn [procs]. rewrite poll_pg. reflexivity.
 Qed.
 
 (** every process belongs to a launch of the session and sits in the group of its first stage *)
